@@ -26,6 +26,8 @@ type Wire struct {
 	Handler http.Handler
 	mu      sync.Mutex
 	// LastRequest holds the bytes of the most recent request as sent.
+	// Targets: scheme://host of every request the client sent (redirects must stay with the endpoint)
+	Targets []string
 	// ShortBodies counts answers whose handler announced more bytes than it wrote
 	ShortBodies int
 	LastRequest []byte
@@ -70,6 +72,7 @@ func (w *Wire) RoundTrip(req *http.Request) (*http.Response, error) {
 	w.mu.Lock()
 	w.LastRequest = append([]byte(nil), buf.Bytes()...)
 	w.Requests++
+	w.Targets = append(w.Targets, req.URL.Scheme+"://"+req.URL.Host)
 	w.mu.Unlock()
 	sreq, err := http.ReadRequest(bufio.NewReader(&buf))
 	if err != nil {
